@@ -20,7 +20,7 @@ RULE = ('trash-put of one symlink per case (to file, dir, nothing, another link,
         'non-trivial = the link resolves to something (or has trailing slashes); distinct = (link kind, target volume relation, trailing '
         'slashes, reached through link, outcome)')
 ASSUMPTIONS = ["'link-to-file/' is ENOTDIR for the kernel: failing is legitimate there, following is not"]
-PROBES = ['link-trashed', 'trailing-slash-on-dirlink-trashed', 'legitimate-enotdir-refusal', 'target-other-volume', 'reached-through-link',
+PROBES = ['cross-volume-fallback', 'link-trashed', 'trailing-slash-on-dirlink-trashed', 'legitimate-enotdir-refusal', 'target-other-volume', 'reached-through-link',
           'restored-identical-link', 'dangling', 'chain', 'selfloop']
 TECHNIQUE = 'deterministic simulation of put and restore on generated symlink configurations; snapshot oracle on the link target, lstat/readlink of the payload, recorded location'
 LEVEL_TEXT = 'seeded exploration of link kinds x spellings x volumes; the target subtree must be snapshot-identical after every command'
@@ -80,7 +80,16 @@ def gen(rng):
         arg = rng.choice([p, p, posixpath.relpath(p, home), './' + posixpath.relpath(p, home)])
     slashes = rng.choice([0, 0, 1, 2, 3])
     arg += '/' * slashes
-    procs = [{'argv': ['trash-put', '--', arg], 'env': env, 'cwd': home, 'uid': uid},
+    putopts = []
+    if vol != '/' and rng.random() < 0.3:
+        # the volume trash dirs are unusable and the home fallback is enabled twice:
+        # the link is moved across volumes by shutil.move's copy+delete
+        steps[:] = [st_ for st_ in steps if not (st_[1].endswith('/.Trash') or '/.Trash-' in st_[1] or '/.Trash/' in st_[1])]
+        for v in L['vols']:
+            steps.append(['f', v + '/.Trash-%d' % uid, 'blocker', 0o600])
+        putopts = ['--home-fallback']
+        env['TRASH_ENABLE_HOME_FALLBACK'] = '1'
+    procs = [{'argv': ['trash-put'] + putopts + ['--', arg], 'env': env, 'cwd': home, 'uid': uid},
              {'argv': ['trash-restore', '--sort=path', '/'], 'env': env, 'cwd': '/', 'uid': uid, 'stdin': '?'}]
     return {
         'world': {'mounts': L['mounts'], 'steps': steps},
@@ -122,6 +131,8 @@ def check(sim, case, st):
     loc = nm.loc
     target = snap0[loc][1]
     r = sim.run(put)
+    if '--home-fallback' in put['argv']:
+        st.probes['cross-volume-fallback'] += 1
     st.sims += 1
     st.ops += r.nops
     snap1 = sim.snap()
